@@ -93,7 +93,8 @@ def w2_case(res, case, verbose=False):
     ntrans = 0
     base = (init, tt, fin)
     # round 0: fresh simulator; round 1: the SAME simulator object gets a second, different stimulus (lanes rotated)
-    for rnd in ((0, 1) if case['stim'] == 'rf' else (0,)):
+    # (after hand-written multi-transition input waveforms, round 1 goes back to plain s_to_c() stimuli on the same object)
+    for rnd in (0, 1):
         perm = np.roll(np.arange(n), 5 * rnd)
         init, tt, fin = ([x[perm] for x in base[0]], [x[perm] for x in base[1]], [x[perm] for x in base[2]])
         rkey = key + (f'/round{rnd}' if rnd else '')
@@ -101,7 +102,7 @@ def w2_case(res, case, verbose=False):
         sim.s_to_c()
         ini_bits = [int(sum(int(v) << p for p, v in enumerate(x))) for x in init]
         fin_bits = [int(sum(int(v) << p for p, v in enumerate(x))) for x in fin]
-        if case['stim'] == 'multi':
+        if case['stim'] == 'multi' and rnd == 0:
             # multi-transition waveforms written into the input slots (capacity 4: up to 3 entries + terminator)
             wf = wsim.waveforms(3, max_entries=3)
             for k, pos in enumerate(ipos + spos):
@@ -145,7 +146,7 @@ def w2_case(res, case, verbose=False):
     if ntrans: res.sig((case['nl'], case['style'], tuple(case['plan']), case['capname'], case['stim'], ntrans))
     res.count('w2_cases')
     if case['stim'] == 'multi': res.count('w2_multi')
-    else: res.count('w2_second_round')
+    res.count('w2_second_round')
 
 
 def run_w2(res, task):
